@@ -111,6 +111,7 @@ type call struct {
 	// element they denote on the wire
 	resend int
 	kept   []xml.Token
+	writer xmlstream.TokenWriteFlushCloser // TokenWriter: the (closed) writer
 
 	err      error
 	returned atomic.Bool // set after err/panicked (publishes them)
@@ -129,10 +130,12 @@ type tcase struct {
 	// failAt >= 0: the connection breaks: that transport write and every later
 	// one fail (nothing of them reaches the peer).  Calls may then fail; one
 	// that reports success has its element on the wire all the same
-	failAt   int
-	routines [][]*call // caller goroutines
-	handler  []*call   // calls executed as handler replies in the serve goroutine
-	yields   []int     // scheduler yields before the k-th transport write
+	failAt int
+	// token writers are closed a second time, later, while other calls are under way
+	closeTwice bool
+	routines   [][]*call // caller goroutines
+	handler    []*call   // calls executed as handler replies in the serve goroutine
+	yields     []int     // scheduler yields before the k-th transport write
 }
 
 func (tc tcase) all() []*call {
@@ -152,7 +155,7 @@ func (tc tcase) ns() string {
 
 func (tc tcase) String() string {
 	var sb strings.Builder
-	fmt.Fprintf(&sb, "s2s=%v session=%q yields=%v Close()-from-another-goroutine-after-write=%d connection-breaks-at-write=%d", tc.s2s, tc.negotiated, tc.yields, tc.closeAt, tc.failAt)
+	fmt.Fprintf(&sb, "s2s=%v session=%q yields=%v Close()-from-another-goroutine-after-write=%d connection-breaks-at-write=%d token-writers-closed-twice=%v", tc.s2s, tc.negotiated, tc.yields, tc.closeAt, tc.failAt, tc.closeTwice)
 	for g, r := range tc.routines {
 		fmt.Fprintf(&sb, "\n goroutine %d:", g)
 		for _, c := range r {
@@ -608,8 +611,9 @@ func (c *call) reader() xml.TokenReader {
 
 func genCase(t *rapid.T) tcase {
 	tc := tcase{s2s: rapid.Bool().Draw(t, "s2s")}
-	tc.negotiated = rapid.SampledFrom([]string{"", "", "initiated", "received"}).Draw(t, "negotiated")
+	tc.negotiated = rapid.SampledFrom([]string{"", "", "initiated", "received", "layered-final"}).Draw(t, "negotiated")
 	tc.closeAt, tc.failAt = -1, -1
+	tc.closeTwice = rapid.Bool().Draw(t, "closeTwice")
 	if rapid.IntRange(0, 3).Draw(t, "closeConcurrently") == 0 {
 		tc.closeAt = rapid.IntRange(0, 6).Draw(t, "closeAt")
 	} else if rapid.IntRange(0, 3).Draw(t, "connectionBreaks") == 0 {
@@ -707,6 +711,7 @@ func (c *call) run(ctx context.Context, s *xmpp.Session) {
 				if e := w.Close(); c.err == nil {
 					c.err = e
 				}
+				c.writer = w
 			}
 			closeResp(resp)
 			resp = nil
@@ -743,6 +748,7 @@ func (c *call) run(ctx context.Context, s *xmpp.Session) {
 			if e := w.Close(); c.err == nil {
 				c.err = e
 			}
+			c.writer = w
 		case "SendIQ":
 			resp, c.err = s.SendIQ(ctx, c.reader())
 		case "SendMessage":
@@ -817,6 +823,10 @@ func check(t interface {
 		ev.Failf(t, "%s\n%s", tc.String(), fmt.Sprintf(format, args...))
 	}
 	opts := wire.SessionOpts{Negotiated: tc.negotiated}
+	if tc.negotiated == "layered-final" {
+		// the last (and only) negotiation step replaces the connection
+		opts = wire.SessionOpts{LayeredFinal: true}
+	}
 	if tc.s2s {
 		opts.State |= xmpp.S2S
 	}
@@ -935,8 +945,25 @@ func check(t interface {
 		wg.Add(1)
 		go func(r []*call) {
 			defer wg.Done()
+			var stale []xmlstream.TokenWriteFlushCloser
 			for _, c := range r {
+				// a token writer that was closed is closed once more later (the usual
+				// explicit Close plus a deferred one): that must not concern anybody else
+				for _, w := range stale {
+					if tc.closeTwice {
+						_ = w.Close()
+					}
+				}
+				stale = stale[:0]
 				c.run(ctx, sv.Session)
+				if c.writer != nil {
+					stale = append(stale, c.writer)
+				}
+			}
+			for _, w := range stale {
+				if tc.closeTwice {
+					_ = w.Close()
+				}
 			}
 		}(r)
 	}
